@@ -125,10 +125,12 @@ Proof. exact addrxlat_op_depth_bounded. Qed.
 Print Assumptions C09_depth_bounded.
 
 (** addrxlat_fulladdr_conv: on success the address is in the requested space
-    and is a conversion of the original; on failure it is untouched *)
+    (which then is a real one) and is a conversion of the original; on failure
+    -- e.g. for the target ADDRXLAT_NOADDR -- it is untouched *)
 Theorem C09_fulladdr_conv : forall ff fn fp wf lim s rcaps mem fuel fa as_ st fa',
   fulladdr_conv lim (Some s) rcaps mem ff fn fp wf fuel fa as_ = Conv st fa' ->
-  (st = ST_OK /\ fa_as fa' = as_ /\ conv s rcaps mem ff fn fp wf (N.shiftl 1 (Z.to_N as_)) fa fa')
+  (st = ST_OK /\ fa_as fa' = as_ /\ (0 <= as_ < 64)%Z /\
+   conv s rcaps mem ff fn fp wf (caps_of as_) fa fa')
   \/ (st <> ST_OK /\ fa' = fa).
 Proof. exact fulladdr_conv_spec. Qed.
 Print Assumptions C09_fulladdr_conv.
